@@ -50,7 +50,7 @@ var c16SourceFaults = map[string][]string{
 }
 
 // faults of the rules side / arguments (no source edit)
-var c16TreeFaults = []string{"offset-over-255", "stored-name-of-other-file", "rule-not-in-file", "offset-beyond-chain", "no-rules-file", "two-rules-files", "operator-not-rx", "missing-assembly-file", "bad-argument", "invalid-version", "missing-version"}
+var c16TreeFaults = []string{"extra-argument", "offset-over-255", "stored-name-of-other-file", "rule-not-in-file", "offset-beyond-chain", "no-rules-file", "two-rules-files", "operator-not-rx", "missing-assembly-file", "bad-argument", "invalid-version", "missing-version"}
 
 func c16Inject(src, fault, pos string, r int) (string, map[string]string) {
 	lines := c16SourceFaults[fault]
@@ -218,6 +218,10 @@ func c16Check(env *core.Env, cc core.Case) core.Verdict {
 			args = []string{"chore", "update-copyright", "-v", core.Pick(rand.New(rand.NewSource(int64(idx))), "not-a-version", "4.x", "", "1.2.3.4.5", "v", "4..0"), "-y", "2030"}
 		}
 	}
+	if c.Fault == "extra-argument" && len(args) > 0 {
+		// a second positional argument (a rule that does not exist, a malformed id, a valid second rule): one rule or --all, nothing else
+		args = append(args, core.Pick(rand.New(rand.NewSource(int64(idx+len(targets)))), ft.File.prefix()+"999", "not-a-rule-id", targets[len(targets)-1].Key, ""))
+	}
 	r := cli(env, root, stdin, args...)
 	v := core.Verdict{Status: core.Held, Nontrivial: true, Features: []string{"fault:" + c.Fault, "pos:" + c.Pos, "cmd:" + c.Cmd}, Counts: map[string]int{}}
 	what := fmt.Sprintf("fault %s at %s (%s unit %s), command %v", c.Fault, c.Pos, c.Which, ft.Key, args)
@@ -348,6 +352,10 @@ func c16Cases(env *core.Env, rng *rand.Rand) []core.Case {
 			switch fault {
 			case "invalid-version", "missing-version":
 				cs = append(cs, &c16Case{Proj: p, Fault: fault, Pos: "n/a", Cmd: "copyright", Which: core.Pick(rng, "first", "middle", "last")})
+			case "extra-argument":
+				for _, cmd := range []string{"generate", "update", "compare", "compare-github", "format", "format-check"} {
+					cs = append(cs, &c16Case{Proj: p, Fault: fault, Pos: "n/a", Cmd: cmd, Which: core.Pick(rng, "first", "middle", "last")})
+				}
 			case "bad-argument", "missing-assembly-file":
 				for _, cmd := range []string{"generate", "update", "compare", "format"} {
 					if fault == "bad-argument" && cmd == "format" {
